@@ -36,8 +36,22 @@ fn coq_vn(v: &VN, it: &mut crate::emit::Interner) -> String {
 }
 /// serialise with unique value tokens; returns the text and the tokens that must be held
 type Tok = (String, Option<Vec<String>>);
-fn write_tok(n: &Node, rng: &mut Rng, ctr: &mut usize, toks: &mut Vec<Tok>, out: &mut String, pretty: bool, path: &mut Vec<String>) -> VN {
+fn write_tok(n: &Node, rng: &mut Rng, ctr: &mut usize, toks: &mut Vec<Tok>, out: &mut String, pretty: bool, path: &mut Vec<String>, beside_elems: bool) -> VN {
     match n {
+        Node::CData if beside_elems => {
+            // data-oriented documents: character data beside child elements is blank; a CDATA section
+            // there holds nothing or white space (quick_xml::de still delivers it: known finding K3
+            // when two of them are separated by a child element)
+            let c = *rng.pick(&["", " ", "\n", ""]);
+            out.push_str(&format!("<![CDATA[{}]]>", c));
+            VN::CData(c.to_string())
+        }
+        Node::Text if rng.chance(1, 12) => {
+            // character data that is only white space
+            let c = *rng.pick(&[" ", "\n  ", "\t"]);
+            out.push_str(c);
+            VN::Text(c.to_string())
+        }
         Node::Text => {
             *ctr += 1;
             // (raw bytes written, unescaped content, content without surrounding whitespace)
@@ -50,6 +64,13 @@ fn write_tok(n: &Node, rng: &mut Rng, ctr: &mut usize, toks: &mut Vec<Tok>, out:
             out.push_str(&raw);
             toks.push((val, Some(path.clone())));
             VN::Text(content)
+        }
+        Node::CData if rng.chance(1, 6) => {
+            // a CDATA section that holds nothing, or only white space (which is NOT trimmed)
+            let c = *rng.pick(&["", "", " ", "\n"]);
+            out.push_str(&format!("<![CDATA[{}]]>", c));
+            // nothing to hold: the property ignores surrounding white space
+            VN::CData(c.to_string())
         }
         Node::CData => {
             *ctr += 1;
@@ -93,7 +114,7 @@ fn write_tok(n: &Node, rng: &mut Rng, ctr: &mut usize, toks: &mut Vec<Tok>, out:
                         out.push_str("\n  ");
                         vkids.push(VN::Text("\n  ".to_string()));
                     }
-                    vkids.push(write_tok(k, rng, ctr, toks, out, pretty, path));
+                    vkids.push(write_tok(k, rng, ctr, toks, out, pretty, path, has_elem));
                 }
                 path.pop();
                 if pretty && has_elem {
@@ -128,7 +149,7 @@ fn write_doc_tok(top: &[Node], rng: &mut Rng) -> (String, Vec<Tok>, Vec<VN>) {
                 out.push('\n');
                 vtop.push(VN::Text("\n".to_string()));
             }
-            _ => vtop.push(write_tok(n, rng, &mut ctr, &mut toks, &mut out, pretty, &mut vec![])),
+            _ => vtop.push(write_tok(n, rng, &mut ctr, &mut toks, &mut out, pretty, &mut vec![], false)),
         }
     }
     (out, toks, vtop)
@@ -301,6 +322,59 @@ fn pools(c13: bool) -> Vec<(Vec<&'static str>, Vec<&'static str>)> {
     v
 }
 
+/// known finding K3: an element that has child elements, only blank character data, and a CDATA
+/// section among it (quick_xml::de delivers it: `$text` twice, or a text in the middle of a list)
+fn k3_class(v: &VN) -> bool {
+    match v {
+        VN::Elem { empty, kids, .. } if !*empty => {
+            let has_elem = kids.iter().any(|k| matches!(k, VN::Elem { .. }));
+            let blank = kids.iter().all(|k| match k {
+                VN::Text(t) | VN::CData(t) => t.trim_matches(|c| c == ' ' || c == '\t' || c == '\n' || c == '\r').is_empty(),
+                _ => true,
+            });
+            let mut runs = 0;
+            let mut in_run = false;
+            for k in kids {
+                match k {
+                    VN::Elem { .. } => in_run = false,
+                    VN::CData(_) => {
+                        if !in_run {
+                            runs += 1;
+                            in_run = true;
+                        }
+                    }
+                    _ => {}
+                }
+            }
+            (has_elem && blank && runs >= 1) || kids.iter().any(k3_class)
+        }
+        _ => false,
+    }
+}
+/// put 1-3 CDATA sections among the children of some element that has child elements
+fn insert_cdata_beside_children(n: &mut Node, rng: &mut Rng) -> bool {
+    if let Node::Elem { kids, empty, .. } = n {
+        if *empty {
+            return false;
+        }
+        let has_elem = kids.iter().any(|k| matches!(k, Node::Elem { .. }));
+        if has_elem && rng.chance(1, 2) {
+            for _ in 0..rng.range(1, 3) {
+                let at = rng.below(kids.len() + 1);
+                kids.insert(at, Node::CData);
+            }
+            return true;
+        }
+        let idx: Vec<usize> = (0..kids.len()).collect();
+        for i in idx {
+            if insert_cdata_beside_children(&mut kids[i], rng) {
+                return true;
+            }
+        }
+    }
+    false
+}
+
 pub fn run(ctx: &mut Ctx, c13: bool) {
     let evals = vec![Eval { label: "bytes", func: "ev_bytes".into(), role: "corr" }, Eval { label: "reflects", func: "or_reflects".into(), role: "oracle" }, Eval { label: "wf", func: "or_wf".into(), role: "oracle" }];
     let mut sh = Shards::new(&ctx.out, "progs", DOC_IMPORTS, "doccase", evals, "show_case", 100);
@@ -350,6 +424,9 @@ pub fn run(ctx: &mut Ctx, c13: bool) {
             vec![e("export", &[], kids)]
         };
         let mut v = vec![(vec![many(70, true), many(70, false)], false), (vec![many(129, true)], false), (vec![rows(256, true), rows(3, false)], false)];
+        // blank / empty CDATA sections around a child element (known finding K3 for quick_xml::de)
+        v.push((vec![vec![e("a", &[], vec![Node::CData, e("b", &[], vec![]), Node::CData])]], false));
+        v.push((vec![vec![e("list", &["k"], vec![e("item", &["x"], vec![]), Node::CData, e("item", &["x"], vec![]), Node::CData, Node::CData])]], false));
         if ctx.thorough {
             v.push((vec![rows(12000, true)], true));
         }
@@ -391,6 +468,15 @@ pub fn run(ctx: &mut Ctx, c13: bool) {
                 d
             })
             .collect();
+        if rng.chance(1, 8) {
+            let which = rng.below(doms.len());
+            for nd in doms[which].iter_mut() {
+                if insert_cdata_beside_children(nd, &mut rng) {
+                    hist.add("blank-cdata-beside-child-elements");
+                    break;
+                }
+            }
+        }
         let mut giant = false;
         if i >= n {
             doms = fixed[i - n].0.clone();
@@ -563,7 +649,8 @@ pub fn run(ctx: &mut Ctx, c13: bool) {
                 fails.push(json::obj(kv));
             };
             if res == "err" {
-                fail(if kind == "P" { "deserialize" } else { "deserialize-deny-unknown" }, format!("{} fails on a source document: {}", de, rest), None);
+                let k3 = !c13 && (rest.contains("duplicate field `$text`") || rest.contains("invalid type: string")) && dd.vtop.iter().any(k3_class);
+                fail(if kind == "P" { "deserialize" } else { "deserialize-deny-unknown" }, format!("{} fails on a source document: {}", de, rest), if k3 { Some("K3-blank-cdata-runs-around-child-elements") } else { None });
                 continue;
             }
             n_ok += 1;
